@@ -272,6 +272,7 @@ def gen_run_cfg(r, i):
     if cfg["sampler"] == "emcee_smc":
         cfg.pop("min_step", None), cfg.pop("max_n_steps", None)
         cfg["n_samples"] = 16
+        cfg["emcee_moves"] = bool((i // 2) % 2)      # every second EmceeSMC run: the user chooses the proposal moves
     cfg["n_final_samples"] = [None, int(cfg["n_samples"] * 2), max(4, int(cfg["n_samples"] // 2))][i % 3]
     return cfg
 
